@@ -616,14 +616,45 @@ func runC20(c *Ctx) {
 		c.Unresolved("C20.R1", "configmanager.DumpJSON")
 	} else {
 		n := 0
-		for _, cs := range callsIn(dump, false, func(cc *ssa.CallCommon) bool {
-			return calleeName(cc) == "encoding/json.Marshal" || calleeName(cc) == "encoding/json.MarshalIndent"
-		}) {
-			n++
-			vis = append(vis, visible{"DumpJSON:marshal", stripIface(cs.Instr.Common().Args[0]), cs.Instr.Pos()})
+		isEnc := func(cc *ssa.CallCommon) bool {
+			n := calleeName(cc)
+			return n == "encoding/json.Marshal" || n == "encoding/json.MarshalIndent" || strings.HasSuffix(n, "encoding/json.Encoder).Encode")
 		}
-		if n != 1 {
-			c.Fail("C20.R1", "pkg/configmanager.DumpJSON:marshal-count", dump.Pos(), fmt.Sprintf("expected exactly one json.Marshal in DumpJSON, found %d", n))
+		// a package helper that encodes one of its parameters stands for the encoder (json.Marshal behind a wrapper)
+		encodesParam := func(h *ssa.Function) int {
+			if h == nil || len(h.Blocks) == 0 || h.Pkg != dump.Pkg {
+				return -1
+			}
+			for _, cs := range callsIn(h, false, isEnc) {
+				args := argsOf(cs.Instr.Common())
+				if len(args) == 0 {
+					continue
+				}
+				for i, p := range h.Params {
+					if stripIface(args[0]) == ssa.Value(p) || args[0] == ssa.Value(p) {
+						return i
+					}
+				}
+			}
+			return -1
+		}
+		forEachInstr(dump, false, func(_ *ssa.Function, in ssa.Instruction) {
+			call, ok := in.(*ssa.Call)
+			if !ok {
+				return
+			}
+			if isEnc(call.Common()) {
+				n++
+				vis = append(vis, visible{"DumpJSON:marshal", stripIface(argsOf(call.Common())[0]), call.Pos()})
+				return
+			}
+			if i := encodesParam(call.Common().StaticCallee()); i >= 0 && i < len(call.Common().Args) {
+				n++
+				vis = append(vis, visible{"DumpJSON:marshal", stripIface(call.Common().Args[i]), call.Pos()})
+			}
+		})
+		if n < 1 {
+			c.Unresolved("C20.R1", "the value DumpJSON encodes (json.Marshal / Encoder.Encode, directly or in a package helper)")
 		}
 	}
 	red := c.F(pkg, "getMOSNConfigRedacted")
